@@ -9,6 +9,7 @@ import (
 	"errors"
 	"fmt"
 	"github.com/plgd-dev/go-coap/v3/message"
+	"github.com/plgd-dev/go-coap/v3/message/codes"
 	"strings"
 	"time"
 
@@ -97,8 +98,10 @@ func scenario(c cfg) *mcx.Scenario {
 			mk := func(i int, path byte) (*pool.Message, context.CancelFunc) {
 				ctx, cancel := context.WithCancel(context.Background())
 				m := p.AcquireMessage(ctx)
+				m.SetCode(codes.GET)
 				_ = m.SetPath("/" + string(lower(path)))
 				if path != lower(path) {
+					m.SetCode(codes.Code(5)) // FETCH: method codes run up to 0.31, every one of them is a request
 					// same target path, other request options (a conditional / proxy-style request): still the same endpoint
 					m.SetOptionBytes(message.ETag, []byte{0xe0, byte(i)})
 					m.SetOptionString(message.URIHost, fmt.Sprintf("host%d", i))
